@@ -86,11 +86,46 @@ def collect(ctx):
     return ts
 
 
+def apalache_extra(ctx):
+    """thorough tier only: the lifecycle contract's invariants are inductive (Apalache) - histories of ANY length, all six tables the real
+    classes use.  An addition to the TLC runs; skipped (and said so) if the tool is unavailable or too slow."""
+    import os
+    import shutil
+    import subprocess
+    from .. import tlc
+    out = tlc.scratch("apa")
+    os.makedirs(out, exist_ok=True)
+    spec = os.path.join(tlc.SPEC, "Apa_Lifecycle.tla")
+    res = {}
+    for name, args, want_ok in (("Init => IndInv", ["--init=ApaInit", "--next=ApaNext", "--length=0"], True),
+                                ("IndInv /\\ Next => IndInv'", ["--init=IndInit", "--next=ApaNext", "--length=1"], True),
+                                ("negative control: independently chosen counters in reset() are refuted", ["--init=IndInit", "--next=ApaNextLoose", "--length=1"], False)):
+        try:
+            r = subprocess.run(["apalache-mc", "check", "--inv=IndInv", "--out-dir=" + out] + args + [spec],
+                               capture_output=True, text=True, timeout=600, cwd=out)
+            ok = "EXITCODE: OK" in r.stdout
+            refuted = "Checker has found an error" in r.stdout or "violation" in r.stdout.lower()
+            if want_ok:
+                res[name] = "discharged" if ok else "FAILED"
+                if not ok and refuted:
+                    raise tlc.MachineryError("Apalache refutes the inductive invariant of the lifecycle contract: " + r.stdout[-800:])
+            else:
+                res[name] = "refuted (as it must be)" if (refuted and not ok) else "NOT REFUTED"
+                if ok:
+                    raise tlc.MachineryError("Apalache accepts the loosened reset action: the inductive obligation does not bite")
+        except (OSError, subprocess.TimeoutExpired) as ex:
+            res[name] = "skipped (%s)" % type(ex).__name__
+    shutil.rmtree(out, ignore_errors=True)
+    ctx.parts["apalache:Apa_Lifecycle (six lifecycle tables, unbounded histories)"] = res
+
+
 def run(ctx):
     ctx.model("MC_DDM", "MC_DDM.cfg")           # each detector module refines Lifecycle (PROPERTY LCSpec); the full set runs in C02-C11
     ctx.model("MC_KdqDetector", "MC_KdqDetector.cfg")
     ctx.model("MC_HDM", "MC_HDM_db1.cfg")
     ctx.model("MC_PCACD", "MC_PCACD.cfg")
+    if not ctx.quick:
+        apalache_extra(ctx)
     ts = collect(ctx)
     fams = {}
     for t in ts:
